@@ -163,10 +163,17 @@ func (e *Engine) atLoopHead(st *State, fr *frame, li *loopInfo, pred *ssa.BasicB
 	}
 	st.labels[fmt.Sprintf("loop%d", li.ordinal)] = st.clone()
 	e.havocLoop(st, fr, li)
+	e.resetMarksForLoop(st, fr.fn, li)
 	st.active[li.head] = true
 	env = mkEnv(st)
 	for _, inv := range invs {
 		st.assume(e.evalSpecBool(env, inv.Expr))
+	}
+	if c != nil {
+		for _, a := range c.LoopAssume[li.ordinal] {
+			st.assume(e.evalSpecBool(env, a.Expr))
+			e.trustedUsed[fmt.Sprintf("UNCHECKED assumption at loop %d of %s: %s", li.ordinal, fr.fn.Name(), a.Src)] = true
+		}
 	}
 	return true
 }
@@ -441,7 +448,12 @@ func (e *Engine) havocLoop(st *State, fr *frame, li *loopInfo) {
 	}
 	whole, allocKeys, slots = nil, nil, nil
 	staticPass = false
+	e.loopAnyHavoc = false
 	scanLoop()
+	if e.loopAnyHavoc {
+		e.havocGen++
+		st.pending = append(st.pending, pendingHavoc{gen: e.havocGen})
+	}
 	// Apply the heap effects. Arrays written through unknown roots are
 	// forgotten entirely. Arrays touched only by allocation (zero-init of
 	// fresh objects) and by stores to loop-invariant roots keep the slots of
@@ -759,12 +771,26 @@ func (e *Engine) loopCallEffects(st *State, fr *frame, li *loopInfo, cc *ssa.Cal
 	c := e.contractOf(fn)
 	if c != nil && !c.Inline {
 		if c.ModAny {
+			e.loopAnyHavoc = true
+			io, _ := e.stableKeys()
 			for k, so := range e.heapKeys {
-				*whole = append(*whole, KeySort{k, so})
+				if !io[k] {
+					*whole = append(*whole, KeySort{k, so})
+				}
 			}
 			return
 		}
 		for _, m := range c.Modifies {
+			if m.Any {
+				e.loopAnyHavoc = true
+				io, _ := e.stableKeys()
+				for k, so := range e.heapKeys {
+					if !io[k] {
+						*whole = append(*whole, KeySort{k, so})
+					}
+				}
+				continue
+			}
 			if m.All != "" {
 				env := &SpecEnv{e: e, st: st, pkg: pkgOf(fn), qn: &e.qn, vars: map[string]Value{}}
 				*whole = append(*whole, e.resolveAllLoc(env, m.All)...)
@@ -1188,6 +1214,7 @@ func (e *Engine) verifyCase(fn *ssa.Function, c *Contract, cs *Case, res *FuncRe
 			}
 		}
 	}
+	e.initMarks(st, true)
 	vc.entry = st // placeholder so specEnv works
 	env := vc.specEnv(st)
 	env.old = nil
@@ -1198,6 +1225,17 @@ func (e *Engine) verifyCase(fn *ssa.Function, c *Contract, cs *Case, res *FuncRe
 		for _, r := range cs.Requires {
 			st.assume(e.evalSpecBool(env, r.Expr))
 		}
+	}
+	if ps := e.specOf(pkgOf(fn)); ps != nil {
+		for _, ax := range ps.Lemmas {
+			if ax.Axiom {
+				st.assume(e.evalSpecBool(env, ax.Expr))
+			}
+		}
+	}
+	for _, a := range c.Assumes {
+		st.assume(e.evalSpecBool(env, a.Expr))
+		e.trustedUsed[fmt.Sprintf("UNCHECKED assumption at entry of %s: %s", fn.Name(), a.Src)] = true
 	}
 	vc.discipline = e.newDiscipline(fn)
 	vc.entryLocks = map[string]lockMode{}
@@ -1270,6 +1308,11 @@ func (e *Engine) checkFrame(st *State, vc *verifyCtx) {
 	if c.ModAny {
 		return
 	}
+	for _, m := range c.Modifies {
+		if m.Any {
+			return
+		}
+	}
 	env := vc.specEnv(st).inOld()
 	type allowed struct {
 		ref Term
@@ -1304,6 +1347,7 @@ func (e *Engine) checkFrame(st *State, vc *verifyCtx) {
 	}
 	sort.Strings(keys)
 	base := vc.entry.nextRefTerm()
+	var goals []Term
 	for _, k := range keys {
 		if wholeOK[k] || strings.HasPrefix(k, "chan#") {
 			continue
@@ -1325,8 +1369,11 @@ func (e *Engine) checkFrame(st *State, vc *verifyCtx) {
 		for _, a := range allow[k] {
 			conds = append(conds, Neq(r, a))
 		}
-		goal := Forall([]Term{r}, Implies(And(conds...), Eq(Select(cur, r), Select(old, r))))
-		e.oblige(st, "frame", "only_declared_locations_modified", goal, vc.fn.Pos())
+		goals = append(goals, Forall([]Term{r}, Implies(And(conds...), Eq(Select(cur, r), Select(old, r)))))
+	}
+	// one obligation per return path (all heap arrays together)
+	if len(goals) > 0 {
+		e.oblige(st, "frame", "only_declared_locations_modified", And(goals...), vc.fn.Pos())
 	}
 }
 
